@@ -70,6 +70,165 @@ let op_show (b : z list) : string =
      | OpOperator2 _ -> "op:" ^ n
      | OpReal d -> "real:" ^ hex_of_bytes d ^ ":" ^ n)
 
+
+(* ---------- CFF DICTs: the model side *)
+let kind_of (s : string) : dict_kind =
+  match s with
+  | "top" -> KTop | "font" -> KFont | "priv" -> KPrivate
+  | "top2" -> KTop2 | "font2" -> KFont2 | "priv2" -> KPrivate2
+  | _ -> failwith ("dict kind " ^ s)
+let operand_s (o : operand) : string =
+  match o with
+  | OInt v -> "i" ^ z_to_string v
+  | OOff v -> "o" ^ z_to_string v
+  | OReal b -> "r" ^ hex_of_bytes b
+let entries_s (d : (z * operand list) list) : string =
+  if d = [] then "." else
+    String.concat "+" (List.map (fun (op, ops) -> z_to_string op ^ ":" ^ String.concat "," (List.map operand_s ops)) d)
+let parse_operand (s : string) : operand =
+  let body = String.sub s 1 (String.length s - 1) in
+  match s.[0] with
+  | 'i' -> OInt (z_of_string body)
+  | 'o' -> OOff (z_of_string body)
+  | 'r' -> OReal (bytes_of_hex body)
+  | _ -> failwith ("operand " ^ s)
+let parse_entries (s : string) : (z * operand list) list =
+  if s = "." then [] else
+    List.map (fun e ->
+        match String.index_opt e ':' with
+        | Some i ->
+          let ops = String.sub e (i + 1) (String.length e - i - 1) in
+          (z_of_string (String.sub e 0 i), if ops = "" then [] else List.map parse_operand (split_on ',' ops))
+        | None -> failwith ("entry " ^ e)) (split_on '+' s)
+let dict_prefix = zi 3
+let dict_rd_s (k : dict_kind) (b : z list) : (z * operand list) list outcome * string =
+  let r = dict_read (table_ctxt b) (kind_max_operands k) in
+  (r, out_s entries_s r)
+let dict_pwp_model (ks : string) (b : z list) : string =
+  let k = kind_of ks in
+  let (r1, s1) = dict_rd_s k b in
+  match r1 with
+  | Ok d ->
+    (match dict_write_dep dict_prefix (kind_defaults k) d [] with
+     | Ok (w, n) ->
+       let (r2, s2) = dict_rd_s k w in
+       let tail = match r2 with
+         | Ok d2 -> (match dict_write_dep dict_prefix (kind_defaults k) d2 [] with
+             | Ok (w2, _) -> ";w2=" ^ hex_of_bytes w2
+             | _ -> ";w2=panic")
+         | _ -> "" in
+       "r=" ^ s1 ^ ";w=" ^ hex_of_bytes w ^ ";n=" ^ z_to_string n ^ ";r2=" ^ s2 ^ tail
+     | _ -> "r=" ^ s1 ^ ";w=panic")
+  | _ -> "r=" ^ s1
+
+(* ---------- CFF DICTs: an independent reference, written after Adobe Technical Note #5176
+   (sections 4, 9, 15 and tables 3, 9, 10, 23) and the OpenType CFF2 chapter; nothing below uses
+   the extracted model.  Operands: integer, offset (an integer that the owning operator declares
+   to be an offset; allsorts keeps those apart and writes them in the fixed 5-byte form),
+   real (the raw nibble bytes, hex). *)
+type sop = SI of int | SO of int | SR of string
+let spec_operators =
+  [0; 1; 2; 3; 4; 5; 6; 7; 8; 9; 10; 11; 13; 14; 15; 16; 17; 18; 19; 20; 21; 22; 23; 24]
+  @ List.map (fun b -> 3072 + b)
+    [0; 1; 2; 3; 4; 5; 6; 7; 8; 9; 10; 11; 12; 13; 14; 17; 18; 19; 20; 21; 22; 23; 30; 31; 32; 33; 34; 35; 36; 37; 38]
+(* operators whose single operand is an offset; Encoding 0 and 1 name predefined encodings; Private is (size, offset) *)
+let spec_offset1 = [15; 17; 19; 3072 + 36; 3072 + 37; 24]
+let spec_encoding = 16
+let spec_private = 18
+let spec_ito (op : int) (ops : sop list) : sop list =
+  match ops with
+  | [SI v] when op = spec_encoding && v > 1 -> [SO v]
+  | [SI v] when List.mem op spec_offset1 -> [SO v]
+  | [SI l; SI o] when op = spec_private -> [SO l; SO o]
+  | _ -> ops
+let deoff (o : sop) : sop = match o with SO v -> SI v | x -> x
+let r001 = SR "0a001f" and zero = SI 0
+let font_matrix = [r001; zero; zero; r001; zero; zero]
+let spec_defaults (kind : string) : (int * sop list) list =
+  match kind with
+  | "top" ->
+    [3072 + 1, [zero]; 3072 + 2, [zero]; 3072 + 3, [SI (-100)]; 3072 + 4, [SI 50]; 3072 + 5, [zero];
+     3072 + 6, [SI 2]; 3072 + 7, font_matrix; 5, [zero; zero; zero; zero]; 3072 + 8, [zero];
+     15, [SO 0]; 16, [SO 0]; 3072 + 31, [zero]; 3072 + 32, [zero]; 3072 + 33, [zero]; 3072 + 34, [SI 8720]]
+  | "priv" ->
+    [3072 + 9, [SR "0a039625ff"]; 3072 + 10, [SI 7]; 3072 + 11, [SI 1]; 3072 + 14, [zero]; 3072 + 17, [zero];
+     3072 + 18, [SR "0a06ff"]; 3072 + 19, [zero]; 3072 + 8, [zero]; 20, [zero]; 21, [zero]]
+  | "top2" -> [3072 + 7, font_matrix]
+  | "priv2" ->
+    [3072 + 9, [SR "0a039625ff"]; 3072 + 10, [SI 7]; 3072 + 11, [SI 1]; 3072 + 17, [zero];
+     3072 + 18, [SR "0a06ff"]; 22, [zero]]
+  | _ -> []
+let spec_max (kind : string) : int = if kind.[String.length kind - 1] = '2' then 513 else 48
+let spec_elide (kind : string) (d : (int * sop list) list) : (int * sop list) list =
+  let defs = spec_defaults kind in
+  List.filter (fun (op, ops) -> match List.assoc_opt op defs with Some dflt -> dflt <> ops | None -> true) d
+
+let sop_of_string (s : string) : sop =
+  let body = String.sub s 1 (String.length s - 1) in
+  match s.[0] with
+  | 'i' -> SI (int_of_string body) | 'o' -> SO (int_of_string body) | 'r' -> SR body
+  | _ -> failwith ("operand " ^ s)
+let sentries_of_string (s : string) : (int * sop list) list =
+  if s = "." then [] else
+    List.map (fun e ->
+        match String.index_opt e ':' with
+        | Some i ->
+          let ops = String.sub e (i + 1) (String.length e - i - 1) in
+          (int_of_string (String.sub e 0 i), if ops = "" then [] else List.map sop_of_string (split_on ',' ops))
+        | None -> failwith ("entry " ^ e)) (split_on '+' s)
+let hexs (l : int list) : string = if l = [] then "-" else String.concat "" (List.map (Printf.sprintf "%02x") l)
+let unhexs (s : string) : int list =
+  if s = "-" then [] else List.init (String.length s / 2) (fun i -> int_of_string ("0x" ^ String.sub s (2 * i) 2))
+
+(* Table 3: operand encoding (the shortest form that holds the value); offsets in the 5-byte form *)
+let be32 (v : int) : int list = let u = v land 0xffffffff in [u lsr 24; (u lsr 16) land 255; (u lsr 8) land 255; u land 255]
+let spec_enc_operand (o : sop) : int list =
+  match o with
+  | SI v when v >= -107 && v <= 107 -> [v + 139]
+  | SI v when v >= 108 && v <= 1131 -> let w = v - 108 in [w / 256 + 247; w mod 256]
+  | SI v when v >= -1131 && v <= -108 -> let w = - v - 108 in [w / 256 + 251; w mod 256]
+  | SI v when v >= -32768 && v <= 32767 -> let u = v land 0xffff in [28; u lsr 8; u land 255]
+  | SI v | SO v -> 29 :: be32 v
+  | SR h -> 30 :: unhexs h
+let spec_enc_operator (op : int) : int list = if op >= 3072 then [12; op - 3072] else [op]
+let spec_encode (d : (int * sop list) list) : int list =
+  List.concat_map (fun (op, ops) -> List.concat_map spec_enc_operand ops @ spec_enc_operator op) d
+
+(* decoding; None = not a well-formed DICT (reserved byte, undefined operator, truncated operand, more
+   than `max` operands before an operator).  Operands after the last operator are dropped. *)
+let spec_decode (max : int) (b : int list) : (int * sop list) list option =
+  let sext bits v = if v >= 1 lsl (bits - 1) then v - (1 lsl bits) else v in
+  let rec real acc l = match l with
+    | [] -> None
+    | x :: r -> if x lsr 4 = 15 || x land 15 = 15 then Some (List.rev (x :: acc), r) else real (x :: acc) r in
+  let rec go (l : int list) (rops : sop list) (acc : (int * sop list) list) =
+    let operand o r = if List.length rops + 1 > max then None else go r (o :: rops) acc in
+    let operator op r =
+      if List.mem op spec_operators then go r [] ((op, spec_ito op (List.rev rops)) :: acc) else None in
+    match l with
+    | [] -> Some (List.rev acc)
+    | 12 :: b1 :: r -> operator (3072 + b1) r
+    | 12 :: [] -> None
+    | b0 :: r when b0 <= 24 -> operator b0 r
+    | 28 :: a :: b :: r -> operand (SI (sext 16 (a * 256 + b))) r
+    | 29 :: a :: b :: c :: d :: r -> operand (SI (sext 32 ((((a * 256 + b) * 256) + c) * 256 + d))) r
+    | 30 :: r -> (match real [] r with Some (bs, r') -> operand (SR (hexs bs)) r' | None -> None)
+    | b0 :: r when b0 >= 32 && b0 <= 246 -> operand (SI (b0 - 139)) r
+    | b0 :: b1 :: r when b0 >= 247 && b0 <= 250 -> operand (SI ((b0 - 247) * 256 + b1 + 108)) r
+    | b0 :: b1 :: r when b0 >= 251 && b0 <= 254 -> operand (SI (- (b0 - 251) * 256 - b1 - 108)) r
+    | _ -> None in
+  go b [] []
+
+let i32_fits (v : int) = v >= -2147483648 && v <= 2147483647
+(* a real the reader can return: at least one byte, the first 0xF nibble is in the last byte *)
+let real_wf (h : string) : bool =
+  let b = unhexs h in
+  let has x = x lsr 4 = 15 || x land 15 = 15 in
+  match List.rev b with
+  | [] -> false
+  | last :: front -> has last && not (List.exists has front)
+let sop_wf (o : sop) = match o with SI v | SO v -> i32_fits v | SR h -> real_wf h
+
 (* generic parse-write-parse line *)
 let pwp (r1 : 'a outcome) (show : 'a -> string) (write : 'a -> z list outcome) (reread : z list -> string) : string =
   match r1 with
@@ -207,6 +366,13 @@ let run (input : string) : string =
   | "u24" -> "w=" ^ w_s (write_u24 (z_of_string p.(1)))
   | "pascal" -> "w=" ^ w_s (pascal_write (parse_str p.(1)))
   | "file" -> "n/a"
+  | "filed" -> "n/a"
+  | "dict" -> dict_pwp_model p.(1) (bytes_of_hex p.(2))
+  | "dictw" ->
+    let k = kind_of p.(1) in
+    (match dict_write_dep dict_prefix (kind_defaults k) (parse_entries p.(2)) (parse_entries p.(3)) with
+     | Ok (w, n) -> "w=" ^ hex_of_bytes w ^ ";n=" ^ z_to_string n ^ ";r=" ^ snd (dict_rd_s k w)
+     | _ -> "w=panic")
   | k -> failwith ("kind " ^ k)
 
 (* ---------- the judge: the property, decided on the implementation's output *)
@@ -234,6 +400,82 @@ let rec deltas_fit (prev : int) (l : int list) : bool =
   match l with
   | [] -> true
   | x :: r -> let d = x - prev in d >= -32768 && d <= 32767 && deltas_fit x r
+
+
+(* ---------- CFF DICT judges: decided on the implementation's output with the reference above *)
+let kv_parts (s : string) : (string * string) list =
+  List.filter_map (fun kv ->
+      match String.index_opt kv '=' with
+      | Some i -> Some (String.sub kv 0 i, String.sub kv (i + 1) (String.length kv - i - 1))
+      | None -> None) (split_on ';' s)
+let is_hex (s : string) =
+  s = "-" || (String.length s mod 2 = 0 && String.length s > 0 &&
+              (let ok = ref true in String.iter (fun c -> if not ((c >= '0' && c <= '9') || (c >= 'a' && c <= 'f')) then ok := false) s; !ok))
+let hexlen (s : string) = if s = "-" then 0 else String.length s / 2
+let sentries_to_string (d : (int * sop list) list) : string =
+  let o = function SI v -> "i" ^ string_of_int v | SO v -> "o" ^ string_of_int v | SR h -> "r" ^ h in
+  if d = [] then "." else String.concat "+" (List.map (fun (op, ops) -> string_of_int op ^ ":" ^ String.concat "," (List.map o ops)) d)
+
+(* bytes -> read -> write (no delta) -> read -> write: None = no violation *)
+let judge_dict (kind : string) (hexin : string) (impl : string) : (string * string) option =
+  let ip = kv_parts impl in
+  let g k = try Some (List.assoc k ip) with Not_found -> None in
+  let max = spec_max kind in
+  let reference = spec_decode max (unhexs hexin) in
+  match g "r" with
+  | None -> None
+  | Some r when not (starts_with "ok:" r) ->
+    (match reference with
+     | Some _ -> Some ("refusal", "a well-formed " ^ kind ^ " DICT was refused by the reader: " ^ r)
+     | None -> None)
+  | Some r ->
+    let e1s = String.sub r 3 (String.length r - 3) in
+    let e1 = sentries_of_string e1s in
+    if reference <> Some e1 then
+      Some ("decode", "read_dep differs from the reference decoding " ^
+                      (match reference with Some d -> sentries_to_string d | None -> "(not a DICT)"))
+    else begin
+      let kept = spec_elide kind e1 in
+      match g "w" with
+      | None -> None
+      | Some w when not (is_hex w) -> Some ("refusal", "a parsed DICT was not written: " ^ w)
+      | Some w ->
+        if g "n" <> Some (string_of_int (hexlen w)) then
+          Some ("length", "write_dep returned " ^ (match g "n" with Some n -> n | None -> "?") ^ " for " ^ string_of_int (hexlen w) ^ " bytes written")
+        else if unhexs w <> spec_encode kept then
+          Some ("roundtrip", "written bytes are not the encoding of the parsed DICT minus its exactly-default entries (" ^ sentries_to_string kept ^ ")")
+        else if g "r2" <> Some ("ok:" ^ sentries_to_string kept) then
+          Some ("stability", "parse(write(parse(b))) is not parse(b) minus its exactly-default entries (" ^ sentries_to_string kept ^ ")")
+        else if g "w2" <> Some w then Some ("stability", "write(parse(write(d))) <> write(d)")
+        else None
+    end
+
+(* entries -> write (with delta) -> read *)
+let judge_dictw (kind : string) (entries : string) (delta : string) (impl : string) : (string * string) option =
+  let ip = kv_parts impl in
+  let g k = try Some (List.assoc k ip) with Not_found -> None in
+  let d = sentries_of_string entries and dl = sentries_of_string delta in
+  let defs = spec_defaults kind in
+  let written = List.filter_map (fun (op, ops) ->
+      match List.assoc_opt op dl with
+      | Some dops -> Some (op, dops)
+      | None -> (match List.assoc_opt op defs with Some dflt when dflt = ops -> None | _ -> Some (op, ops))) d in
+  let all_wf = List.for_all (fun (_, ops) -> List.for_all sop_wf ops) written in
+  let within = List.for_all (fun (op, ops) -> List.mem op spec_operators && List.length ops <= spec_max kind) written in
+  let readback = List.map (fun (op, ops) -> (op, spec_ito op (List.map deoff ops))) written in
+  match g "w" with
+  | None -> None
+  | Some w when not (is_hex w) -> Some ("refusal", "DICT not written: " ^ w)
+  | Some w ->
+    if g "n" <> Some (string_of_int (hexlen w)) then
+      Some ("length", "write_dep returned " ^ (match g "n" with Some n -> n | None -> "?") ^ " for " ^ string_of_int (hexlen w) ^ " bytes written")
+    else if not all_wf then None
+    else if unhexs w <> spec_encode written then
+      Some ("roundtrip", "written bytes are not the encoding of the entries (delta applied, exactly-default entries omitted): expected " ^ hexs (spec_encode written))
+    else if not within then None
+    else if g "r" <> Some ("ok:" ^ sentries_to_string readback) then
+      Some ("roundtrip", "read(write(d)) <> d minus exactly-default entries: expected " ^ sentries_to_string readback)
+    else None
 
 let judge (input : string) (impl : string) (model : string) : verdict =
   let p = Array.of_list (split_on '|' input) in
@@ -414,6 +656,31 @@ let judge (input : string) (impl : string) (model : string) : verdict =
        | Some w when l > 255 && is_bytes w -> viol "truncation" "Pascal string longer than 255 written"
        | Some w when l <= 255 && not (is_bytes w) -> viol "refusal" "Pascal string refused"
        | _ -> same ())
+    | "dict" ->
+      (match judge_dict p.(1) p.(2) impl with Some (c, w) -> viol c w | None -> same ())
+    | "dictw" ->
+      (match judge_dictw p.(1) p.(2) p.(3) impl with Some (c, w) -> viol c w | None -> same ())
+    | "filed" ->
+      (* every DICT of a fixture font: `dicts=N#KIND HEX -> result ## ...`, each judged like dict|KIND|HEX
+         and compared with the model's prediction for those bytes *)
+      (match String.index_opt impl '#' with
+       | Some i when starts_with "dicts=" impl ->
+         let body = String.sub impl (i + 1) (String.length impl - i - 1) in
+         let items = if body = "" then [] else
+             List.filter (fun x -> x <> "") (List.map String.trim (String.split_on_char '#' body)) in
+         let res = List.fold_left (fun acc item ->
+             match acc with
+             | Violation _ -> acc
+             | _ ->
+               (match String.split_on_char ' ' item with
+                | [k; h; "->"; out] ->
+                  (match judge_dict k h out with
+                   | Some (c, w) -> Violation (c, p.(1) ^ " " ^ k ^ " DICT " ^ h ^ ": " ^ w)
+                   | None -> if dict_pwp_model k (bytes_of_hex h) = out then acc
+                     else Mismatch ("fixture DICT " ^ k ^ " " ^ h ^ ": implementation and model differ"))
+                | _ -> Mismatch ("unparsable item " ^ item))) Agree items in
+         if items = [] then Mismatch "no DICT found in the fixture" else res
+       | _ -> if impl = "dicts=nofile" then Agree else Mismatch ("fixture DICTs: " ^ impl))
     | "file" ->
       (match get "pwp" ip with
        | Some s when starts_with "stable" s || s = "absent" || s = "nofile" -> Agree
@@ -424,7 +691,7 @@ let judge (input : string) (impl : string) (model : string) : verdict =
 let tag (input : string) (out : string) : string =
   let p = split_on '|' input in
   let k = List.hd p in
-  let sub = match k with "lay" | "rd" | "file" -> "-" ^ List.nth p 1 | _ -> "" in
+  let sub = match k with "lay" | "rd" | "file" | "dict" | "dictw" -> "-" ^ List.nth p 1 | "filed" -> "-" ^ Filename.basename (List.nth p 1) | _ -> "" in
   let cls =
     if out = "n/a" then ""
     else if List.exists (fun (_, v) -> starts_with "err:" v) (parts out) then "-err"
